@@ -573,3 +573,77 @@ func init() {
 		Outside: "histories longer than 4 steps after the first leaf (3 in quick); operand shapes other than [2,2] / [2]",
 	})
 }
+
+func init() {
+	confs := func(base []Item) []Item {
+		var out []Item
+		for c := int64(0); c <= 2; c++ {
+			out = append(out, withP(base, map[string]int64{"conf": c})...)
+		}
+		return out
+	}
+	methodFns := []string{"At", "Slice", "Patch", "Transpose", "Reshape", "Broadcast", "UnSqueeze", "Squeeze", "Flatten",
+		"SumAlong", "MaxAlong", "MinAlong", "AvgAlong", "VarAlong", "StdAlong", "MeanAlong"}
+	binFns := []string{"Eq", "Ne", "Gt", "Ge", "Lt", "Le", "ElMax", "ElMin", "Equals", "Add", "Sub", "Mul", "Div", "Dot", "MatMul"}
+	ragged := func(tier string) []Item {
+		it := func(depth, lo, hi, conf int64) Item {
+			return Item{P: map[string]int64{"depth": depth, "lo": lo, "hi": hi, "conf": conf}}
+		}
+		out := []Item{it(0, 0, 0, 0), it(0, 0, 0, 2), it(1, 0, 3, 0), it(1, 0, 3, 2), it(2, 0, 3, 0), it(2, 0, 2, 1), it(3, 0, 2, 0), it(4, 1, 2, 0)}
+		if tier == "thorough" {
+			out = append(out, it(3, 0, 3, 0), it(4, 0, 2, 0))
+		}
+		return out
+	}
+	allChecks = append(allChecks, &Check{
+		ID: "C09", Level: "model_checking",
+		Harnesses: []Harness{
+			{Name: "C09_construct", Pkg: "zzh", Func: "H_C09_construct", Reach: []string{"accepted", "rejected"},
+				What:  "Full/Zeros/Ones/Eye/RandU/RandN with arbitrary dims (length 0..3, nil, entries in [-2,6]) and nil / CPU / arbitrary-device configs",
+				Items: func(string) []Item { return confs(sItems("fn", []string{"Full", "Zeros", "Ones", "Eye", "RandU", "RandN"}, items(map[string]int64{}))) }},
+			{Name: "C09_tensorof", Pkg: "zzh", Func: "H_C09_tensorof", Reach: []string{"accepted", "rejected"},
+				What:  "TensorOf with nested data of depth 0..4 whose length at EVERY node is solver-chosen (ragged at any depth, empty, nil)",
+				Items: ragged},
+			{Name: "C09_concat", Pkg: "zzh", Func: "H_C09_concat", Reach: []string{"accepted", "rejected"},
+				What:  "Concat of 0..3 tensors (nil entries, ranks 0..2, sizes 1..2) along dim in [-2,6]",
+				Items: func(string) []Item { return items(map[string]int64{}) }},
+			{Name: "C09_backprop", Pkg: "zzh", Func: "H_C09_backprop", Reach: []string{"accepted", "rejected"},
+				What:  "BackPropagate(nil | any tensor)",
+				Items: func(string) []Item { return items(map[string]int64{}) }},
+			{Name: "C09_method", Pkg: "zzh", Func: "H_C09_method", Reach: []string{"accepted", "rejected"},
+				What:  "At/Slice/Patch/Transpose/Reshape/Broadcast/UnSqueeze/Squeeze/Flatten/7 reducers on receivers of solver-chosen rank and shape with every integer argument in [-2,6], slices of length 0..3 or nil, Patch source nil or any shape",
+				Items: tiered(func() []Item { return sItems("fn", methodFns, items(map[string]int64{"maxrank": 2, "maxdim": 2})) }, func() []Item { return sItems("fn", methodFns, items(map[string]int64{"maxrank": 3, "maxdim": 3})) })},
+			{Name: "C09_binary", Pkg: "zzh", Func: "H_C09_binary", Reach: []string{"accepted", "rejected"},
+				What:  "the 15 binary methods with the operand nil or of any rank/shape (compatible or not)",
+				Items: tiered(func() []Item { return sItems("fn", binFns, items(map[string]int64{"maxrank": 2})) }, func() []Item { return sItems("fn", binFns, items(map[string]int64{"maxrank": 3})) })},
+			{Name: "C09_total", Pkg: "zzh", Func: "H_C09_total", Reach: []string{"accepted"},
+				What:  "methods without an error result (NElems, Shape, 7 full reductions, 10 unary ops, Gradient, GradContext, ResetGradContext) never panic",
+				Items: func(string) []Item { return items(map[string]int64{}) }},
+			{Name: "C09_fc", Pkg: "zzh", Func: "H_C09_fc", Reach: []string{"accepted", "rejected"},
+				What:  "NewFC with nil config, Inputs/Outputs in [-2,3], initializer map nil / empty / nil entries / custom initializers returning nil, wrong-shaped tensors or errors; then Forward with 0..2 inputs (nil, rank 0..3)",
+				Items: func(string) []Item { return items(map[string]int64{}) }},
+			{Name: "C09_input", Pkg: "zzh", Func: "H_C09_input", Reach: []string{"accepted", "rejected"},
+				What:  "Input.Forward with and without SeedFunc, with 0..1 inputs",
+				Items: func(string) []Item { return items(map[string]int64{}) }},
+			{Name: "C09_act", Pkg: "zzh", Func: "H_C09_act", Reach: []string{"accepted", "rejected"},
+				What:  "activation constructors (nil configs, Softmax Dim in [-2,3]) and Forward with 0..2 inputs (nil, rank 0..2)",
+				Items: func(string) []Item { return sItems("act", []string{"Relu", "LeakyRelu", "Sigmoid", "Tanh", "Softmax"}, items(map[string]int64{})) }},
+			{Name: "C09_loss", Pkg: "zzh", Func: "H_C09_loss", Reach: []string{"accepted", "rejected"},
+				What:  "MSE/BCE/CE Compute with nil or any-rank, mismatched inputs",
+				Items: func(string) []Item { return sItems("loss", []string{"MSE", "BCE", "CE"}, items(map[string]int64{})) }},
+			{Name: "C09_metric", Pkg: "zzh", Func: "H_C09_metric", Reach: []string{"accepted", "rejected"},
+				What:  "Accuracy.Accumulate / Result with nil, wrong-rank, mismatched inputs",
+				Items: func(string) []Item { return items(map[string]int64{}) }},
+			{Name: "C09_sgd", Pkg: "zzh", Func: "H_C09_sgd", Reach: []string{"accepted", "rejected"},
+				What:  "NewSGD(nil | config) and Update(nil pointer | nil tensor | no gradient | gradient)",
+				Items: func(string) []Item { return items(map[string]int64{}) }},
+			{Name: "C09_init", Pkg: "zzh", Func: "H_C09_init", Reach: []string{"accepted", "rejected"},
+				What:  "the seven initializer constructors (nil configs, parameters and fans in [-2,3] / any real) and Init with arbitrary shapes",
+				Items: func(string) []Item {
+					return sItems("init", []string{"Full", "Uniform", "Normal", "HeUniform", "HeNormal", "XavierUniform", "XavierNormal"}, items(map[string]int64{}))
+				}},
+		},
+		Assumptions: []string{"preconditions and result shapes per DESIGN Appendix A", "foreign implementations of the Tensor interface are not exercised", numericModel},
+		Outside:     "live tensors above rank 3 / size 3, slices longer than 3, depth-4 nested data with lengths above 2; hangs are detected only as an exhausted step budget",
+	})
+}
